@@ -65,6 +65,17 @@ def floatToFloat (Fs Fd : FloatFmt) (b : Nat) : Option Nat :=
       if num = 0 then some sign
       else some (if e ≥ 0 then rneFloat Fd 0 (num * 2 ^ e.toNat) else rneFloat Fd (-e).toNat num)
 
+/-- `LossyFrom<f64> for f16 / bf16` (`convert.rs:815-835`, feature `f16`): `half::f16::from_f64(src)` / `half::bf16::from_f64(src)`.  In the locked
+`half` 1.8.3 (`binary16/convert.rs: f64_to_f16_fallback`, `bfloat/convert.rs: f64_to_bf16`) the conversion starts with
+`let x = (val >> 32) as u32` — "truncating the last 32-bits of mantissa; that precision will always be lost" — and rounds to nearest even
+from the remaining 20 mantissa bits only: the discarded bits are not kept as a sticky bit.  Bug-compatible model: chop, then round. -/
+def halfFromF64 (Fd : FloatFmt) (b : Nat) : Option Nat :=
+  if f64.isNan b then none else floatToFloat f64 Fd (b - b % 2 ^ 32)
+
+/-- the float → float impl body selected by the row -/
+def floatRow (src dst : String) (Fs Fd : FloatFmt) (b : Nat) : Option Nat :=
+  if src == "f64" && (dst == "f16" || dst == "bf16") then halfFromF64 Fd b else floatToFloat Fs Fd b
+
 /-! ## (2) admissibility: which impls exist (tables extracted from `convert.rs` by `tools/gen_from_source.py`) -/
 
 /-- `tr<ity> for D` exists: `some generic` (`generic` = the shifting arm, otherwise the same-width `U0` arm) -/
@@ -78,9 +89,12 @@ def hasToInt (tr : String) (S : Layout) (ity : String) : Bool :=
   Generated.toIntImpls.any fun (t, ss, sn, dn, _, g, c) =>
     t == tr && ss == S.signed && sn == S.n && dn == ity && (if g then decide (S.f ≤ S.n) && decide (S.n - S.f ≤ c) else S.f == 0)
 
-/-- `tr<S> for fty` exists (without the `f16` feature) -/
+/-- the harness builds the crate with the cargo feature `f16`: the `cfg(feature = "f16")` rows of the tables exist -/
+def f16Feature : Bool := true
+
+/-- `tr<S> for fty` exists -/
 def hasToFloat (tr : String) (S : Layout) (fty : String) : Bool :=
-  Generated.toFloatImpls.any fun (t, ss, sn, fl, cfg) => t == tr && ss == S.signed && sn == S.n && fl == fty && !cfg && decide (S.f ≤ S.n)
+  Generated.toFloatImpls.any fun (t, ss, sn, fl, cfg) => t == tr && ss == S.signed && sn == S.n && fl == fty && (!cfg || f16Feature) && decide (S.f ≤ S.n)
 
 /-- `tr<S> for D` between fixed-point types exists -/
 def hasFixed (tr : String) (S D : Layout) : Bool :=
@@ -90,13 +104,13 @@ def hasFixed (tr : String) (S D : Layout) : Bool :=
 
 /-- kind of a primitive `LossyFrom<src> for dst`: the body recorded in the table (`id`, `into`, an expression) or `to_float` -/
 def primKind (src dst : String) : Option String :=
-  match Generated.primLossyImpls.find? fun (s, d, _, cfg) => s == src && d == dst && !cfg with
+  match Generated.primLossyImpls.find? fun (s, d, _, cfg) => s == src && d == dst && (!cfg || f16Feature) with
   | some r => some r.2.2.1
-  | none => if Generated.intToFloatImpls.any fun (s, d, _, cfg) => s == src && d == dst && !cfg then some "to_float" else none
+  | none => if Generated.intToFloatImpls.any fun (s, d, _, cfg) => s == src && d == dst && (!cfg || f16Feature) then some "to_float" else none
 
 /-- documented as lossless in `int_to_float_lossy_lossless!` -/
 def primLossless (src dst : String) : Bool :=
-  Generated.intToFloatImpls.any fun (s, d, ll, cfg) => s == src && d == dst && ll && !cfg
+  Generated.intToFloatImpls.any fun (s, d, ll, cfg) => s == src && d == dst && ll && (!cfg || f16Feature)
 
 /-! ## (3) documented answers (exact values only) -/
 
@@ -147,7 +161,7 @@ def ops : List String := ["icvt_from", "icvt_from_lossy", "icvt_from_linto", "ic
 def isOp (op : String) : Bool := ops.contains op
 
 def primFloat : String → Option FloatFmt
-  | "f32" => some f32 | "f64" => some f64 | _ => none
+  | "f32" => some f32 | "f64" => some f64 | "f16" => some f16 | "bf16" => some bf16 | _ => none
 
 /-- value of a primitive-integer / `bool` operand, checked against its type -/
 def intArg (ty k : String) : Option (Bool × Nat × Int) := do
@@ -212,7 +226,7 @@ def model (p : Profile) (L : Layout) (op : String) (a : List String) : Option St
     | some Fs => do
       let Fd ← primFloat dst
       let b ← k.toNat?
-      if b < 2 ^ Fs.nbits then pure (floatStr (lossyInto (floatToFloat Fs Fd) b)) else none
+      if b < 2 ^ Fs.nbits then pure (floatStr (lossyInto (floatRow src dst Fs Fd) b)) else none
     | none => do
       let (si, ni, k) ← intArg src k
       if kind == "to_float" then do
@@ -248,7 +262,7 @@ def spec (_p : Profile) (L : Layout) (op : String) (a : List String) : Option St
     | some Fs => do
       let Fd ← primFloat dst
       let b ← k.toNat?
-      pure (specFloatToFloat (src == dst || (src == "f32" && dst == "f64")) Fs Fd b)
+      pure (specFloatToFloat (src == dst || (src == "f32" && dst == "f64") || ((src == "f16" || src == "bf16") && (dst == "f32" || dst == "f64"))) Fs Fd b)
     | none => do
       let (_, _, k) ← intArg src k
       match primFloat dst with
